@@ -12,6 +12,8 @@ broadcast use {axiom_string_ext, axiom_str_ext, axiom_str_of, axiom_vec_ext, axi
 //@include units/fol_lib.inc
 //@include spec/core_lemmas.rs
 //@include spec/fvlink_lemmas.rs
+//@include spec/block_lemmas.rs
+//@include spec/simp_spec.rs
 //@include spec/fresh_lemmas.rs
 
 pub mod fol { pub use super::*; }
@@ -151,6 +153,7 @@ pub proof fn lemma_all_names(taken: Seq<String>, fresh: Seq<String>, c: String)
 //@end
 
 //@include spec/tau_spec.rs
+//@include spec/taub_spec.rs
 
 //@fn src/translating/formula_representation/tau_star.rs :: fn construct_equality_formula
 //@ .ret r
@@ -159,13 +162,13 @@ pub proof fn lemma_all_names(taken: Seq<String>, fresh: Seq<String>, c: String)
 //@     ensures val_ok(r, term, z),
 //@ .hint before "fol::Formula::AtomicFormula(fol::AtomicFormula::Comparison(fol::Comparison {"
 //@     proof {
-//@         assert forall|f: Formula| cmp1(z_var_term, Relation::Equal, rhs, f) implies #[trigger] val_ok(f, term, z) by {
+//@         assert forall|f: Formula| cmp1(z_term(z), Relation::Equal, rhs, f) implies #[trigger] val_ok(f, term, z) by {
 //@             assert forall|w: World, m: HT, s: Asg| #[trigger] ht_sat(f, w, m, s) == in_vals(term, s, zval(z, s)) by {
-//@                 lemma_cmp1(z_var_term, Relation::Equal, rhs, f, w, m, s);
+//@                 lemma_cmp1(z_term(z), Relation::Equal, rhs, f, w, m, s);
 //@                 lemma_z_term(z, m.fc, s);
 //@             }
 //@             assert forall|k: VKey| #[trigger] fv(f, k) implies k == vkey(z) || asp_in_term(term, k) by {
-//@                 lemma_cmp1_fv(z_var_term, Relation::Equal, rhs, f, k);
+//@                 lemma_cmp1_fv(z_term(z), Relation::Equal, rhs, f, k);
 //@                 lemma_z_term(z, |a: Seq<char>, b: Sort| Val::Inf, Map::empty());
 //@             }
 //@         }
@@ -189,7 +192,7 @@ pub proof fn lemma_all_names(taken: Seq<String>, fresh: Seq<String>, c: String)
 //@         let sum = GeneralTerm::IntegerTerm(IntegerTerm::BinaryOperation {
 //@             op: match binop { asp::BinaryOperator::Add => BinaryOperator::Add, asp::BinaryOperator::Subtract => BinaryOperator::Subtract, _ => BinaryOperator::Multiply },
 //@             lhs: Box::new(IntegerTerm::Variable(i)), rhs: Box::new(IntegerTerm::Variable(j)) });
-//@         assert(cmp1(z_var_term, Relation::Equal, sum, zequals));
+//@         assert(cmp1(z_term(z), Relation::Equal, sum, zequals));
 //@         assert forall|f: Formula| (f matches Formula::QuantifiedFormula { quantification, formula } && quantification.quantifier == Quantifier::Exists
 //@                 && quantification.variables@ =~= seq![ivar(i), ivar(j)] && *formula == body)
 //@             implies #[trigger] total_sem(f, valti, valtj, binop, i, j, z) by {
@@ -201,14 +204,14 @@ pub proof fn lemma_all_names(taken: Seq<String>, fresh: Seq<String>, c: String)
 //@                         let s2 = s.insert(int_key(i), Val::Int(x)).insert(int_key(j), Val::Int(y));
 //@                         ht_sat(body, w, m, s2) == (zval(z, s2) == Val::Int(total_op(binop, x, y)) && ht_sat(valti, w, m, s2) && ht_sat(valtj, w, m, s2)) }) by {
 //@                     let s2 = s.insert(int_key(i), Val::Int(x)).insert(int_key(j), Val::Int(y));
-//@                     lemma_cmp1(z_var_term, Relation::Equal, sum, zequals, w, m, s2);
+//@                     lemma_cmp1(z_term(z), Relation::Equal, sum, zequals, w, m, s2);
 //@                     lemma_z_term(z, m.fc, s2);
 //@                     reveal_with_fuel(ht_sat, 3);
 //@                     reveal_with_fuel(eval_int, 3);
 //@                 }
 //@             }
 //@             assert forall|k: VKey| #[trigger] fv(f, k) implies (k == vkey(z) || fv(valti, k) || fv(valtj, k)) && k != int_key(i) && k != int_key(j) by {
-//@                 lemma_cmp1_fv(z_var_term, Relation::Equal, sum, zequals, k);
+//@                 lemma_cmp1_fv(z_term(z), Relation::Equal, sum, zequals, k);
 //@                 lemma_z_term(z, |a: Seq<char>, b: Sort| Val::Inf, Map::empty());
 //@                 reveal_with_fuel(fv, 3);
 //@                 reveal_with_fuel(in_int, 3);
@@ -236,7 +239,7 @@ pub proof fn lemma_all_names(taken: Seq<String>, fresh: Seq<String>, c: String)
 //@         let tj = GeneralTerm::IntegerTerm(IntegerTerm::Variable(nj));
 //@         let tk = GeneralTerm::IntegerTerm(IntegerTerm::Variable(nk));
 //@         let zeq = subformula->BinaryFormula_rhs;
-//@         assert(cmp1(z_var_term, Relation::Equal, tk, *zeq));
+//@         assert(cmp1(z_term(z), Relation::Equal, tk, *zeq));
 //@         let body = Formula::BinaryFormula { connective: BinaryConnective::Conjunction, lhs: Box::new(subformula), rhs: Box::new(range) };
 //@         assert(i_var == ivar(ni) && j_var == ivar(nj) && k_var == ivar(nk));
 //@         assert forall|f: Formula| (f matches Formula::QuantifiedFormula { quantification, formula } && quantification.quantifier == Quantifier::Exists
@@ -250,7 +253,7 @@ pub proof fn lemma_all_names(taken: Seq<String>, fresh: Seq<String>, c: String)
 //@                         let s2 = s.insert(int_key(ni), Val::Int(x)).insert(int_key(nj), Val::Int(y)).insert(int_key(nk), Val::Int(u));
 //@                         ht_sat(body, w, m, s2) == (x <= u <= y && zval(z, s2) == Val::Int(u) && ht_sat(valti, w, m, s2) && ht_sat(valtj, w, m, s2)) }) by {
 //@                     let s2 = s.insert(int_key(ni), Val::Int(x)).insert(int_key(nj), Val::Int(y)).insert(int_key(nk), Val::Int(u));
-//@                     lemma_cmp1(z_var_term, Relation::Equal, tk, *zeq, w, m, s2);
+//@                     lemma_cmp1(z_term(z), Relation::Equal, tk, *zeq, w, m, s2);
 //@                     lemma_z_term(z, m.fc, s2);
 //@                     reveal_with_fuel(ht_sat, 4);
 //@                     reveal_with_fuel(sat_guards, 4);
@@ -259,7 +262,7 @@ pub proof fn lemma_all_names(taken: Seq<String>, fresh: Seq<String>, c: String)
 //@             }
 //@             assert forall|k: VKey| #[trigger] fv(f, k) implies (k == vkey(z) || fv(valti, k) || fv(valtj, k))
 //@                     && k != int_key(ni) && k != int_key(nj) && k != int_key(nk) by {
-//@                 lemma_cmp1_fv(z_var_term, Relation::Equal, tk, *zeq, k);
+//@                 lemma_cmp1_fv(z_term(z), Relation::Equal, tk, *zeq, k);
 //@                 lemma_z_term(z, |a: Seq<char>, b: Sort| Val::Inf, Map::empty());
 //@                 reveal_with_fuel(fv, 4);
 //@                 lemma_bound3(ivar(ni), ivar(nj), ivar(nk), k);
@@ -313,7 +316,7 @@ pub open spec fn qr_free_name(n: Seq<char>) -> bool { qr_free(n) }
 //@         assert(cmp1(tr, Relation::GreaterEqual, zero, *c2));
 //@         assert(cmp1(tr, Relation::Less, tj, *c3));
 //@         let zt = if binop is Divide { tq } else { tr };
-//@         assert(cmp1(z_var_term, Relation::Equal, zt, zequals));
+//@         assert(cmp1(z_term(z), Relation::Equal, zt, zequals));
 //@         let body = Formula::BinaryFormula { connective: BinaryConnective::Conjunction, lhs: Box::new(subformula), rhs: Box::new(zequals) };
 //@         assert forall|f: Formula| (f matches Formula::QuantifiedFormula { quantification, formula } && quantification.quantifier == Quantifier::Exists
 //@                 && quantification.variables@ =~= seq![ivar(i), ivar(j), ivar(qvar), ivar(rvar)] && *formula == body)
@@ -332,7 +335,7 @@ pub open spec fn qr_free_name(n: Seq<char>) -> bool { qr_free(n) }
 //@                     lemma_cmp1(tj, Relation::NotEqual, zero, *c1, w, m, s2);
 //@                     lemma_cmp1(tr, Relation::GreaterEqual, zero, *c2, w, m, s2);
 //@                     lemma_cmp1(tr, Relation::Less, tj, *c3, w, m, s2);
-//@                     lemma_cmp1(z_var_term, Relation::Equal, zt, zequals, w, m, s2);
+//@                     lemma_cmp1(z_term(z), Relation::Equal, zt, zequals, w, m, s2);
 //@                     lemma_z_term(z, m.fc, s2);
 //@                     reveal_with_fuel(ht_sat, 5);
 //@                     reveal_with_fuel(eval_int, 4);
@@ -344,7 +347,7 @@ pub open spec fn qr_free_name(n: Seq<char>) -> bool { qr_free(n) }
 //@                 lemma_cmp1_fv(tj, Relation::NotEqual, zero, *c1, k);
 //@                 lemma_cmp1_fv(tr, Relation::GreaterEqual, zero, *c2, k);
 //@                 lemma_cmp1_fv(tr, Relation::Less, tj, *c3, k);
-//@                 lemma_cmp1_fv(z_var_term, Relation::Equal, zt, zequals, k);
+//@                 lemma_cmp1_fv(z_term(z), Relation::Equal, zt, zequals, k);
 //@                 lemma_z_term(z, |a: Seq<char>, b: Sort| Val::Inf, Map::empty());
 //@                 reveal_with_fuel(fv, 5);
 //@                 reveal_with_fuel(in_int, 4);
@@ -379,26 +382,34 @@ pub open spec fn qr_free_name(n: Seq<char>) -> bool { qr_free(n) }
 //@         assert(var1 == ivar(var1.name) && var2 == ivar(var2.name) && var3 == ivar(var3.name));
 //@         assert(z.name@ != var1.name@ && z.name@ != var2.name@ && z.name@ != var3.name@);
 //@     }
-//@ .hint after "let valtj = val(*arg, var2.clone());"
+//@ .hint before "match t {"
 //@     proof {
-//@         assert forall|f: Formula| total_sem(f, valti, valtj, asp::BinaryOperator::Subtract, var1.name, var2.name, z) implies #[trigger] val_ok(f, t, z) by {
-//@             lemma_val_unary(t, var1.name, var2.name, z, valti, valtj, f);
+//@         // stated for every pair of sub-translations, so that nothing below depends on the names of temporaries
+//@         let zero = asp::Term::PrecomputedTerm(asp::PrecomputedTerm::Numeral(0));
+//@         assert forall|f: Formula, vi: Formula, vj: Formula| t is UnaryOperation && val_ok(vi, zero, var1) && val_ok(vj, *t->UnaryOperation_arg, var2)
+//@                 && #[trigger] total_sem(f, vi, vj, asp::BinaryOperator::Subtract, var1.name, var2.name, z) implies val_ok(f, t, z) by {
+//@             lemma_val_unary(t, var1.name, var2.name, z, vi, vj, f);
 //@         }
-//@     }
-//@ .hint after "let valtj = val(*rhs, var2.clone());"
-//@     proof {
-//@         assert forall|f: Formula| (op is Add || op is Subtract || op is Multiply) && total_sem(f, valti, valtj, op, var1.name, var2.name, z) implies #[trigger] val_ok(f, t, z) by {
-//@             lemma_val_total(t, var1.name, var2.name, z, valti, valtj, f);
+//@         assert forall|f: Formula, vi: Formula, vj: Formula, op: asp::BinaryOperator| t is BinaryOperation && op == t->BinaryOperation_op
+//@                 && (op is Add || op is Subtract || op is Multiply)
+//@                 && val_ok(vi, *t->BinaryOperation_lhs, var1) && val_ok(vj, *t->BinaryOperation_rhs, var2)
+//@                 && #[trigger] total_sem(f, vi, vj, op, var1.name, var2.name, z) implies val_ok(f, t, z) by {
+//@             lemma_val_total(t, var1.name, var2.name, z, vi, vj, f);
 //@         }
-//@         assert forall|f: Formula| (op is Divide || op is Modulo) && partial_sem(f, valti, valtj, op, var1.name, var2.name, z) implies #[trigger] val_ok(f, t, z) by {
-//@             lemma_val_partial(t, var1.name, var2.name, z, valti, valtj, f);
+//@         assert forall|f: Formula, vi: Formula, vj: Formula, op: asp::BinaryOperator| t is BinaryOperation && op == t->BinaryOperation_op
+//@                 && (op is Divide || op is Modulo)
+//@                 && val_ok(vi, *t->BinaryOperation_lhs, var1) && val_ok(vj, *t->BinaryOperation_rhs, var2)
+//@                 && #[trigger] partial_sem(f, vi, vj, op, var1.name, var2.name, z) implies val_ok(f, t, z) by {
+//@             lemma_val_partial(t, var1.name, var2.name, z, vi, vj, f);
 //@         }
-//@         assert forall|f: Formula| op is Interval && interval_sem(f, valti, valtj, var1.name, var2.name, var3.name, z) implies #[trigger] val_ok(f, t, z) by {
-//@             lemma_val_interval(t, var1.name, var2.name, var3.name, z, valti, valtj, f);
+//@         assert forall|f: Formula, vi: Formula, vj: Formula| t is BinaryOperation && t->BinaryOperation_op is Interval
+//@                 && val_ok(vi, *t->BinaryOperation_lhs, var1) && val_ok(vj, *t->BinaryOperation_rhs, var2)
+//@                 && #[trigger] interval_sem(f, vi, vj, var1.name, var2.name, var3.name, z) implies val_ok(f, t, z) by {
+//@             lemma_val_interval(t, var1.name, var2.name, var3.name, z, vi, vj, f);
 //@         }
-//@         assert forall|k: VKey| (fv(valti, k) || fv(valtj, k)) && k.1 == Sort::Integer implies qr_free(k.0) by {
-//@             lemma_asp_keys_general(*lhs, k);
-//@             lemma_asp_keys_general(*rhs, k);
+//@         assert forall|vi: Formula, u: asp::Term, x: Variable, k: VKey| #[trigger] val_ok(vi, u, x) && (x == var1 || x == var2) && #[trigger] fv(vi, k) && k.1 == Sort::Integer
+//@                 implies qr_free(k.0) by {
+//@             lemma_asp_keys_general(u, k);
 //@         }
 //@     }
 //@end
@@ -407,14 +418,67 @@ pub open spec fn qr_free_name(n: Seq<char>) -> bool { qr_free(n) }
 pub mod asp {
     use vstd::prelude::*;
     use vstd::std_specs::iter::IteratorSpec;
-    use super::{IndexSet, seq_extend, seq_insert, lemma_seq_extend_contains};
+    use super::{IndexSet, seq_extend, seq_insert, lemma_seq_extend_contains, VKey, asp_in_term, asp_var_key, has_key, terms_in, af_in,
+        lemma_has_key_extend, lemma_has_key_contains};
     verus! {
     broadcast use {super::axiom_string_ext, super::axiom_vec_ext};
 //@include units/asp_types.inc
 impl Term {
 //@fn src/syntax_tree/asp/mini_gringo.rs :: impl Term :: fn variables
+//@ .ret r
 //@ .spec
+//@     ensures forall|k: VKey| asp_in_term(*self, k) ==> has_key(r@, k),
 //@     decreases self,
+//@ .hint before "match &self"
+//@     proof {
+//@         assert forall|a: Seq<Variable>, b: Seq<Variable>, k: VKey| has_key(a, k) || has_key(b, k) implies #[trigger] has_key(seq_extend(a, b), k) by { lemma_has_key_extend(a, b, k); }
+//@         if let Term::Variable(v) = self { assert(seq![*v].contains(*v)) by { assert(seq![*v][0] == *v); } lemma_has_key_contains(seq![*v], *v); }
+//@         assert forall|k: VKey| #[trigger] asp_in_term(*self, k) == (match *self {
+//@             Term::PrecomputedTerm(_) => false,
+//@             Term::Variable(x) => k == asp_var_key(x),
+//@             Term::UnaryOperation { op, arg } => asp_in_term(*arg, k),
+//@             Term::BinaryOperation { op, lhs, rhs } => asp_in_term(*lhs, k) || asp_in_term(*rhs, k) }) by {}
+//@     }
+//@end
+}
+impl Atom {
+//@fn src/syntax_tree/asp/mini_gringo.rs :: impl Atom :: fn variables
+//@ .ret r
+//@ .spec
+//@     ensures forall|k: VKey| terms_in(self.terms@, k) ==> has_key(r@, k),
+//@ .loop 1 as it
+//@     invariant
+//@         0 <= it.index@ <= self.terms@.len(),
+//@         forall|j: int, k: VKey| 0 <= j < it.index@ && #[trigger] asp_in_term(self.terms@[j], k) ==> has_key(vars@, k),
+//@ .hint before "vars.extend(term.variables())"
+//@     proof {
+//@         assert forall|a: Seq<Variable>, b: Seq<Variable>, k: VKey| has_key(a, k) || has_key(b, k) implies #[trigger] has_key(seq_extend(a, b), k) by { lemma_has_key_extend(a, b, k); }
+//@     }
+//@end
+}
+impl Literal {
+//@fn src/syntax_tree/asp/mini_gringo.rs :: impl Literal :: fn variables
+//@ .ret r
+//@ .spec
+//@     ensures forall|k: VKey| terms_in(self.atom.terms@, k) ==> has_key(r@, k),
+//@end
+}
+impl Comparison {
+//@fn src/syntax_tree/asp/mini_gringo.rs :: impl Comparison :: fn variables
+//@ .ret r
+//@ .spec
+//@     ensures forall|k: VKey| asp_in_term(self.lhs, k) || asp_in_term(self.rhs, k) ==> has_key(r@, k),
+//@ .hint before "let mut vars = self.lhs.variables();"
+//@     proof {
+//@         assert forall|a: Seq<Variable>, b: Seq<Variable>, k: VKey| has_key(a, k) || has_key(b, k) implies #[trigger] has_key(seq_extend(a, b), k) by { lemma_has_key_extend(a, b, k); }
+//@     }
+//@end
+}
+impl AtomicFormula {
+//@fn src/syntax_tree/asp/mini_gringo.rs :: impl AtomicFormula :: fn variables
+//@ .ret r
+//@ .spec
+//@     ensures forall|k: VKey| af_in(*self, k) ==> has_key(r@, k),
 //@end
 }
     } // verus!
